@@ -1,7 +1,8 @@
 (* Model of the WebTransport stream plumbing of h3 / h3-webtransport (property C19):
      h3/src/webtransport/session_id.rs     SessionId: From<StreamId>, Encode
      h3/src/stream.rs                      UniStreamHeader / BidiStreamHeader encoders, WriteBuf (header only),
-                                           BufRecvStream (poll_read, poll_data, AsyncRead), AcceptRecvStream
+                                           BufRecvStream (poll_read, poll_data, futures and tokio AsyncRead, split),
+                                           AcceptRecvStream
                                            (poll_next_varint, poll_type, into_stream)
      h3/src/buf.rs                         BufList: remaining, advance, take_first_chunk, take_chunk
      h3/src/proto/frame.rs                 Frame::decode up to the WebTransport special case
@@ -130,8 +131,12 @@ Definition brs_take (limit : N) (q : list ev) (s : brs) : rdres * list ev * brs 
   | (Some c, bufs') => if len c =? 0 then (REnd, q, brs_set_buf s bufs') else (RData c, q, brs_set_buf s bufs')
   | (None, _) => (REnd, q, s)
   end.
-Definition brs_async_read (limit : N) (q : list ev) (s : brs) : rdres * list ev * brs :=
-  if 0 <? bl_remaining (r_buf s) then brs_take limit q s
+(* the guard in front of the transport poll: true = bytes are handed out of the buffer without polling.
+   1: `if !p.has_remaining() { poll }`, 2: `if !p.is_eos() { poll }` (generated per impl) *)
+Definition read_guard (g : N) (s : brs) : bool :=
+  if g =? 1 then 0 <? bl_remaining (r_buf s) else r_eos s.
+Definition brs_read_with (g : N) (limit : N) (q : list ev) (s : brs) : rdres * list ev * brs :=
+  if read_guard g s then brs_take limit q s
   else match brs_poll_read q s with
        | (RdPending, q', s') => (RPending, q', s')
        | (RdEos, q', s') => (REnd, q', s')
@@ -139,6 +144,18 @@ Definition brs_async_read (limit : N) (q : list ev) (s : brs) : rdres * list ev 
        | (RdPanic p, q', s') => (RPanic p, q', s')
        | (RdData, q', s') => brs_take limit q' s'
        end.
+(* impl futures_util::io::AsyncRead for BufRecvStream (limit = buf.len(), Ok(0) = end) *)
+Definition brs_async_read (limit : N) (q : list ev) (s : brs) : rdres * list ev * brs :=
+  brs_read_with wt_fut_guard limit q s.
+(* impl tokio::io::AsyncRead for BufRecvStream (limit = ReadBuf::remaining(), nothing filled = end) *)
+Definition brs_tokio_read (limit : N) (q : list ev) (s : brs) : rdres * list ev * brs :=
+  brs_read_with wt_tokio_guard limit q s.
+
+(* impl BidiStream for BufRecvStream: split into (send half, receive half); one of them keeps the buffer *)
+Definition brs_split (s : brs) : brs * brs :=
+  let with_buf := {| r_buf := r_buf s; r_eos := r_eos s |} in
+  let without := {| r_buf := []; r_eos := r_eos s |} in
+  if wt_split_buf_to_recv then (without, with_buf) else (with_buf, without).
 
 (* ------------------------------------------------------------------ AcceptRecvStream (unidirectional streams) *)
 
@@ -407,9 +424,15 @@ Definition fs_into_inner (f : fs) : brs := f_s f.
 
 (* ------------------------------------------------------------------ the application's view *)
 
-Inductive rmode := ModeData | ModeRead (limit : N).
+Inductive rmode := ModeData | ModeRead (limit : N) | ModeTokio (limit : N).
 Definition read_call (m : rmode) (q : list ev) (s : brs) : rdres * list ev * brs :=
-  match m with ModeData => brs_poll_data q s | ModeRead l => brs_async_read l q s end.
+  match m with
+  | ModeData => brs_poll_data q s
+  | ModeRead l => brs_async_read l q s
+  | ModeTokio l => brs_tokio_read l q s
+  end.
+(* what the application reads from after accept_bi: the stream itself, or the receive half of split() *)
+Definition after_accept (split : bool) (s : brs) : brs := if split then snd (brs_split s) else s.
 
 Inductive ending := EFin | EReset (code : N) | EPanic (site : N) | EOutOfFuel.
 
@@ -486,21 +509,22 @@ Definition bidi_read (m : rmode) (session : N) (q : list ev) (s : brs) (acc : li
   | (None, q', s', out) => {| b_q := q'; b_ph := BReading session s'; b_out := out |}
   end.
 
-Definition bidi_poll (m : rmode) (st : bapp) : bapp :=
+Definition bidi_poll (split : bool) (m : rmode) (st : bapp) : bapp :=
   match b_ph st with
   | BAccepting f =>
       match fs_poll_next (b_q st) f with
       | (PnPending, q', f') => {| b_q := q'; b_ph := BAccepting f'; b_out := b_out st |}
-      | (PnWt i, q', f') => bidi_read m i q' (fs_into_inner f') (b_out st)
+      | (PnWt i, q', f') => bidi_read m i q' (after_accept split (fs_into_inner f')) (b_out st)
       | (r, q', _) => {| b_q := q'; b_ph := BNotWt r; b_out := b_out st |}
       end
   | BReading i s => bidi_read m i (b_q st) s (b_out st)
   | _ => st
   end.
 
-Definition bidi_step (m : rmode) (st : bapp) (it : item) : bapp :=
+Definition bidi_step (split : bool) (m : rmode) (st : bapp) (it : item) : bapp :=
   match it with
   | Arrive e => {| b_q := b_q st ++ [e]; b_ph := b_ph st; b_out := b_out st |}
-  | Poll => bidi_poll m st
+  | Poll => bidi_poll split m st
   end.
-Definition bidi_run (m : rmode) (h : list item) : bapp := fold_left (bidi_step m) h bapp_init.
+Definition bidi_run (split : bool) (m : rmode) (h : list item) : bapp :=
+  fold_left (bidi_step split m) h bapp_init.
